@@ -423,6 +423,7 @@ pub fn run_cred(ctx: &mut Ctx) {
             format!("<?xml version=\"1.0\"?><Workbook><Cell><Data Type=\"String\">{}</Data></Cell><Version>2.0</Version></Workbook>", hex::encode(rng.bytes(16))).into_bytes(),
             { let mut b = rng.bytes(70_003); b[0] = 0; b },     // delivered in pieces of 512 bytes by `make_key`
             { let mut b = rng.bytes(70_002); b[0] = 2; b },     // … of 4096 bytes
+            { let mut b = rng.bytes(1_048_576 + 9); b[0] = 4; b }, // larger than 1 MiB (a photo as key file), in pieces of 4096 bytes
         ];
         for (ci, kf) in classes.iter().enumerate() {
             for pw in [None, Some("demopass".to_string())] {
@@ -431,15 +432,28 @@ pub fn run_cred(ctx: &mut Ctx) {
                 let mut spec = gen_spec(&mut rng);
                 spec.kdf = Kdf::Aes { rounds: 2, seed: rng.bytes(32) };
                 let layout = gen_layout(&mut rng, &spec);
-                let data = kdbx::build_kdbx4(&spec, &layout, &comp).unwrap();
-                for n in [6u64, 12, 13, 14, 15, 5, 11] {
-                    let (pw2, kf2, what) = edit_creds_n(&mut rng, &creds, n);
-                    let comp2 = ref_composite(&pw2, &kf2);
-                    if comp2.as_deref() == Some(&comp[..]) {
-                        continue;
+                let built = kdbx::build_kdbx4(&spec, &layout, &comp).unwrap();
+                // the same edits against a file the library wrote itself under these credentials (whatever key it derives from them)
+                let saved = {
+                    let db = Database::new(DatabaseConfig { kdf_config: KdfConfig::Aes { rounds: 3 }, ..Default::default() });
+                    let mut buf = Vec::new();
+                    match catch(|| db.save(&mut buf, make_key(&creds.pw, &creds.kf))) {
+                        Ok(Ok(())) => Some(buf),
+                        _ => None,
                     }
-                    let key2 = match catch(|| make_key(&pw2, &kf2)) { Ok(k) => k, Err(_) => continue };
-                    emit_read(ctx, "cred", &data, comp2.as_deref(), &key2, json!({"edit": what, "keyfile_class": ci}), vec![format!("edit:{}", what), format!("keyfile-class:{}", ci)], true);
+                };
+                for (data, origin) in [(Some(built), "builder"), (saved, "library-save")] {
+                    let data = match data { Some(d) => d, None => continue };
+                    for n in [6u64, 12, 13, 14, 15, 5, 11] {
+                        let (pw2, kf2, what) = edit_creds_n(&mut rng, &creds, n);
+                        let comp2 = ref_composite(&pw2, &kf2);
+                        if comp2.as_deref() == Some(&comp[..]) {
+                            continue;
+                        }
+                        let key2 = match catch(|| make_key(&pw2, &kf2)) { Ok(k) => k, Err(_) => continue };
+                        emit_read(ctx, "cred", &data, comp2.as_deref(), &key2, json!({"edit": what, "keyfile_class": ci, "origin": origin}),
+                            vec![format!("edit:{}", what), format!("keyfile-class:{}", ci), format!("origin:{}", origin)], true);
+                    }
                 }
             }
         }
@@ -517,6 +531,12 @@ pub fn run_tamper(ctx: &mut Ctx) {
         if fi % 2 == 0 {
             spec.kdf = Kdf::Aes { rounds: 2, seed: rng.bytes(32) };
         }
+        if fi % 4 == 1 {
+            // a malleable configuration: stream cipher, no compression (an edit that is accepted shows as different content)
+            spec.outer = Outer::ChaCha20;
+            spec.iv = rng.bytes(12);
+            spec.compress = false;
+        }
         let creds = gen_creds(&mut rng);
         let comp = ref_composite(&creds.pw, &creds.kf).unwrap();
         let key = make_key(&creds.pw, &creds.kf);
@@ -580,6 +600,19 @@ pub fn run_tamper(ctx: &mut Ctx) {
                             }
                         }
                     }
+                }
+            }
+        }
+        // compound edits: a data block is changed AND the terminator block is cut off (each alone is rejected)
+        if bounds.len() >= 2 {
+            for k in 0..4 {
+                let (a, b) = (bounds[bounds.len() - 2], bounds[bounds.len() - 1]);
+                let mut d = data[..b].to_vec();
+                let off = if k % 2 == 0 { a + 36 + rng.below((b - a - 36).max(1) as u64) as usize } else { a + rng.below(32) as usize };
+                if off < d.len() {
+                    d[off] ^= 1 << rng.below(8);
+                    let what = if k % 2 == 0 { "block-content-edited-and-terminator-dropped" } else { "block-mac-edited-and-terminator-dropped" };
+                    emit_read(ctx, "tamper", &d, Some(&comp), &key, json!({"mutation": what, "original": orig}), vec![format!("mutation:{}", what)], true);
                 }
             }
         }
